@@ -203,6 +203,18 @@ func main() {
 					}
 				}()
 			}
+			// the cluster's single updater goroutine: announcements come, change and go while resolutions run
+			wg.Add(1)
+			go func() {
+				defer wg.Done()
+				for j := 0; j < 10; j++ {
+					data := []byte(`{"weights":{"https://n:443":2}}`)
+					c.VerifDeliverUriEvent(cluster, d2.TreeCacheEvent{Path: d2.UrisPath(cluster) + "/n3", Data: &data})
+					c.VerifDeliverUriEvent(cluster, d2.TreeCacheEvent{Path: d2.UrisPath(cluster) + "/n3", Data: nil})
+					other := []byte(`{"weights":{"https://a:443":2,"http://a:80":1}}`)
+					c.VerifDeliverUriEvent(cluster, d2.TreeCacheEvent{Path: d2.UrisPath(cluster) + "/n1", Data: &other})
+				}
+			}()
 			wg.Wait()
 		}
 		fmt.Println("d2 race pass done")
